@@ -41,7 +41,14 @@ def cases(draw, tier):
             # the operator object: mostly Dense, else a structured operator of the same kind of matrix (Identity-like
             # operators hand their argument back, Diagonal / ScalarMul / Sum / Product have their own product code)
             "op": draw(st.sampled_from(["dense"] * 5 + ["eye", "eye_T", "eye_prod", "eye_kron", "smul", "diag", "sum_eye", "prod_eye", "perm"])),
-            "tol_zero": draw(st.integers(1, 6)) == 1}
+            "tol_zero": draw(st.integers(1, 6)) == 1,
+            # Hermitian operators may carry a (true) SelfAdjoint / PSD declaration
+            "annot": draw(st.sampled_from([None, None, "SelfAdjoint", "PSD"]))}
+    if case["annot"] and draw(st.booleans()):
+        case["kind"], case["n"] = "normal", draw(st.integers(12, nmax))
+        case["g"] = min(case["g"], case["n"])
+        case["m"] = draw(st.integers(8, case["n"] + 8))
+        n = case["n"]
     if sub == "padded":
         case["m"] = draw(st.integers(n + 1, n + 8))
     if sub == "eigs":
@@ -150,6 +157,10 @@ def check(case, out):
     vs = [B] if B.ndim == 1 else [B[:, j] for j in range(B.shape[1])]
     v = vs[0]
     A, M = make_operator(case.get("op", "dense"), M, case["seed"])
+    if case.get("annot") and type(A).__name__ == "Dense" and np.allclose(M, M.conj().T):
+        ann = case["annot"] if np.all(np.linalg.eigvalsh((M + M.conj().T) / 2) > 0) else "SelfAdjoint"
+        A = getattr(cola, ann)(A)
+        out.label("annotated:" + ann)
     out.label("op:" + case.get("op", "dense"), "tol:0" if tol == 0 else "tol>0")
     scale = max(1.0, np.abs(M).max())
     g_tight = KR.krylov_basis(lambda q: M @ q, v, n + 1, tol=1e-11).shape[1]
